@@ -775,6 +775,7 @@ func VerifC09_MySQLPreparedSearchNumeric() {
 		text, typ, raw = strconv.Itoa(int(v)), base_mysql.TypeTiny, []byte{byte(v)}
 	case 1:
 		v := int16(verif.U16("short"))
+		verif.Assume(verif.Or(verif.And(v >= -9, v <= 9), v == -32768, v == 32767, v == -300, v == 300))
 		text, typ, raw = strconv.Itoa(int(v)), base_mysql.TypeShort, []byte{byte(v), byte(uint16(v) >> 8)}
 	case 2:
 		v := int32(verif.U32("long"))
